@@ -28,22 +28,49 @@ from common import Property, rat, unrat, rats
 from c15 import gen_grid, node_iter, GENERAL, FIXED, BASE, MINPTS, FRACS, is_fixed, probe_flags
 
 LINEAR = ['slinear', 'lagrange2', 'lagrange3', 'cubic']
+SCIPY = ['scipy_slinear', 'scipy_cubic', 'scipy_quintic']     # third-party splines: oracle only, no model
 SPLINE = ['slinear', 'lagrange2', 'lagrange3', 'cubic', 'akima', 'bsplines']
-H = Fraction(1, 2 ** 17)       # relative step of the one-sided differences (fraction of the cell)
+H = Fraction(1, 2 ** 16)       # relative step of the one-sided differences (fraction of the cell)
 TV = 2.0 ** -16                # step in table values for akima
 DTOL = {'2D-lagrange3': 1e-5, '3D-lagrange2': 1e-5, '3D-lagrange3': 1e-3, '2D-lagrange2': 1e-6,
         '1D-lagrange3': 1e-6}
 
 
 def dtol(method):
+    if method in SCIPY:
+        return 1e-6
     return DTOL.get(method, 1e-7)
 
 
-def one_sided(F, h):
-    f0 = F(0.0)
-    fwd = (-3.0 * f0 + 4.0 * F(h) - F(2 * h)) / (2 * h)
-    bwd = (3.0 * f0 - 4.0 * F(-h) + F(-2 * h)) / (2 * h)
-    return fwd, bwd
+def base_of(method):
+    return BASE.get(method, method)
+
+
+def is_linear(method):
+    return method in SCIPY or base_of(method) in LINEAR
+
+
+def one_sided(F, h, f0=None):
+    """Forward and backward derivative estimates from one-sided second-order differences at steps 2h
+    and h, Richardson-combined (error O(h^3)), each with an error bar |D(h) - D(2h)| that measures how
+    far the differences are from having converged (large next to a near-singular Akima weight).
+    `F` may return floats or arrays.  Returns (fwd, bwd, err_fwd, err_bwd)."""
+    if f0 is None:
+        f0 = F(0.0)
+    fp1, fp2, fp4 = F(h), F(2 * h), F(4 * h)
+    fm1, fm2, fm4 = F(-h), F(-2 * h), F(-4 * h)
+    fw1 = (-3.0 * f0 + 4.0 * fp1 - fp2) / (2 * h)
+    fw2 = (-3.0 * f0 + 4.0 * fp2 - fp4) / (4 * h)
+    bw1 = (3.0 * f0 - 4.0 * fm1 + fm2) / (2 * h)
+    bw2 = (3.0 * f0 - 4.0 * fm2 + fm4) / (4 * h)
+    return (4.0 * fw1 - fw2) / 3.0, (4.0 * bw1 - bw2) / 3.0, abs(fw1 - fw2), abs(bw1 - bw2)
+
+
+def fd_ok(d, est, tol, scale):
+    """The returned derivative matches the forward or the backward estimate (within its error bar)."""
+    fw, bw = est[0], est[1]
+    ef, eb = (est[2], est[3]) if len(est) > 2 else (0.0, 0.0)
+    return abs(d - fw) <= tol * scale + 4.0 * ef or abs(d - bw) <= tol * scale + 4.0 * eb
 
 
 def close(a, b, tol, scale):
@@ -56,7 +83,7 @@ class C16(Property):
     tolerance = dict({'derivative_rel_default': 1e-7, 'fd_truncation_step': 'cell/2^17'}, **DTOL)
     required_theorems = ['C16_dx_exact', 'C16_dx_exact_1d', 'C16_linear_in_values',
                          'C16_dvalues_exact', 'C16_dvalues_exact_1d', 'C16_akima_not_additive']
-    rule = ("cases: kind in {InterpND.interpolate(compute_derivative=True), InterpND.training_gradients, "
+    rule = ("cases: kind in {InterpND.interpolate(compute_derivative=True), InterpND.gradient (call orders: alone / after interpolate(x) / after interpolate(x, True) / at a new point), InterpND.training_gradients, "
             "MetaModelStructuredComp totals (inputs and training data), SplineComp totals} x method "
             "(general slinear/lagrange2/lagrange3/akima/cubic, fixed 1D/2D/3D variants, bsplines for "
             "SplineComp) x 1-3 random strictly increasing dyadic grids of any sign x random dyadic tables x "
@@ -150,6 +177,21 @@ class C16(Property):
                 'pts': [rats(p) for p in batches[0]], 'seq': [[rats(p) for p in b] for b in batches[1:]],
                 'train_grad': True}
 
+    def scipy_case(self, rng, method, shape):
+        grids = [gen_grid(rng, n, rng.choice(['pos', 'start0', 'neg', 'end0', 'straddle'])) for n in shape]
+        vals = [rng.randint(-2000, 2000) / 64.0 for _ in node_iter(list(shape))]
+        batches = self.far_points(rng, grids, rng.choice([1, 2]), rng.choice([1, 2]))
+        return {'kind': 'mmsc', 'method': method, 'grids': [rats(g) for g in grids], 'values': rats(vals),
+                'pts': [rats(p) for p in batches[0]], 'seq': [[rats(p) for p in b] for b in batches[1:]],
+                'train_grad': True}
+
+    def gradient_case(self, rng, method, ndim, order):
+        grids, vals = self.gen_table(rng, method, ndim)
+        b = self.far_points(rng, grids, 2, rng.choice([1, 1, 2]))
+        return {'kind': 'gradient', 'method': method, 'grids': [rats(g) for g in grids],
+                'values': rats(vals), 'order': order, 'pts0': [rats(p) for p in b[0]],
+                'pts': [rats(p) for p in b[1]]}
+
     def cases(self, rng, tier):
         # head of the stream: derivative w.r.t. the table over several evaluations on one component,
         # every method that supports training_data_gradients, 1-3 dimensions
@@ -158,6 +200,22 @@ class C16(Property):
                 yield self.seq_case(rng, method, ndim)
         if tier != 'quick':
             yield self.seq_case(rng, 'akima', 3)
+        # scipy-wrapped splines (third party, no Lean model): d/d(table) on N-d tables whose dimensions
+        # have mixed sizes, so the spline order is reduced in some dimensions only
+        for method in SCIPY:
+            for shape in ((3, 7), (7, 3), (4, 8), (2, 6, 5), (6, 2), (5, 5)) if tier == 'quick' else \
+                    ((3, 7), (7, 3), (4, 8), (8, 4), (2, 6, 5), (6, 5, 2), (6, 2), (5, 5), (3, 3), (2, 7),
+                     (5, 3, 6), (7, 7)):
+                yield self.scipy_case(rng, method, shape)
+        # the public InterpND.gradient(x) entry point in every call order
+        for method in GENERAL + FIXED[1] + FIXED[2] + (FIXED[3] if tier != 'quick' else ['3D-slinear']):
+            nd = int(method[0]) if is_fixed(method) else rng.choice([1, 2, 2, 3])
+            for order in (('g', 'i_g') if rng.random() < 0.5 else ('id_g', 'g_new')):
+                yield self.gradient_case(rng, method, nd, order)
+        for _ in range(10 if tier == 'quick' else 200):
+            method = rng.choice(GENERAL + GENERAL + FIXED[1] + FIXED[2])
+            nd = int(method[0]) if is_fixed(method) else rng.choice([1, 2, 2, 3])
+            yield self.gradient_case(rng, method, nd, rng.choice(['g', 'i_g', 'id_g', 'g_new', 'i_g_new']))
         n = 230 if tier == 'quick' else 4000
         for _ in range(n):
             kind = rng.choice(['interp_dx', 'interp_dx', 'interp_dx', 'train', 'mmsc', 'mmsc', 'spline',
@@ -292,7 +350,7 @@ class C16(Property):
                         'fd': fd_rows(pts, Xk)})
         if seq:
             res['seq'] = seq
-        if BASE[method] in LINEAR:
+        if is_linear(method) and 'values2' in case:
             _, vals2 = self._table(case, 'values2')
             a = float(unrat(case['a']))
             f1 = np.asarray(InterpND(method=method, points=tuple(grids), values=vals).interpolate(X)).ravel()
@@ -300,6 +358,42 @@ class C16(Property):
             f3 = np.asarray(InterpND(method=method, points=tuple(grids),
                                      values=a * vals + vals2).interpolate(X)).ravel()
             res['lin'] = {'lhs': f3.tolist(), 'rhs': (a * f1 + f2).tolist()}
+        return res
+
+    def _impl_gradient(self, case):
+        """`InterpND.gradient(x)` after the call order `order`; x = case['pts'], earlier point pts0."""
+        from openmdao.components.interp_util.interp import InterpND
+        grids, vals = self._table(case)
+        method = case['method']
+        X = np.array([[float(unrat(c)) for c in p] for p in case['pts']])
+        X0 = np.array([[float(unrat(c)) for c in p] for p in case['pts0']])
+        t = InterpND(method=method, points=tuple(grids), values=vals)
+        order = case['order']
+        if order == 'i_g':                  # value only at x, then gradient(x)
+            t.interpolate(X.copy())
+        elif order == 'id_g':               # value + derivative at x, then gradient(x)
+            t.interpolate(X.copy(), compute_derivative=True)
+        elif order == 'g_new':              # value + derivative somewhere else, then gradient at a new x
+            t.interpolate(X0.copy(), compute_derivative=True)
+        elif order == 'i_g_new':            # value only somewhere else, then gradient at a new x
+            t.interpolate(X0.copy())
+        g = np.asarray(t.gradient(X.copy()), dtype=float)
+        res = {'shape_ok': list(g.shape) == list(X.shape),
+               'dx': [rats(r) for r in g.reshape(len(X), len(grids)).tolist()], 'fd': []}
+        v = np.asarray(InterpND(method=method, points=tuple(grids), values=vals).interpolate(X.copy()),
+                       dtype=float).ravel()
+        res['v'] = rats(v.tolist())
+        for p, xrow in zip(case['pts'], X):
+            hs = self.steps(case, p)
+            row = []
+            for j, h in enumerate(hs):
+                def F(s, j=j, xrow=xrow):
+                    y = xrow.copy()
+                    y[j] += s
+                    tt = InterpND(method=method, points=tuple(grids), values=vals)
+                    return float(np.asarray(tt.interpolate(y.reshape(1, -1))).ravel()[0])
+                row.append(list(one_sided(F, h)))
+            res['fd'].append(row)
         return res
 
     def _impl_train(self, case):
@@ -377,7 +471,7 @@ class C16(Property):
                     row.append(list(one_sided(F, h)))
                 res['fd'].append(row)
             if case['train_grad']:
-                lin = BASE[case['method']] in LINEAR
+                lin = is_linear(case['method'])
                 tstep = 1.0 if lin else TV
                 fdv = []
                 flat = vals.ravel()
@@ -390,10 +484,9 @@ class C16(Property):
                         d = F(1.0) - f0
                         fdv.append([[float(x), float(x)] for x in d])
                     else:
-                        f_p, f_pp, f_m, f_mm = F(tstep), F(2 * tstep), F(-tstep), F(-2 * tstep)
-                        fw = (-3 * f0 + 4 * f_p - f_pp) / (2 * tstep)
-                        bw = (3 * f0 - 4 * f_m + f_mm) / (2 * tstep)
-                        fdv.append([[float(a), float(b)] for a, b in zip(fw, bw)])
+                        fw, bw, ef, eb = one_sided(F, tstep / 2, f0)
+                        fdv.append([[float(a), float(b), float(c), float(d)]
+                                    for a, b, c, d in zip(fw, bw, ef, eb)])
                 res['fdv'] = fdv          # [entry][point][fwd,bwd]
             return res
         res = step(X, case['pts'])
@@ -447,10 +540,9 @@ class C16(Property):
                     d = F(1.0) - y0[v]
                     rows.append([[float(x), float(x)] for x in d])
                 else:
-                    f_p, f_pp, f_m, f_mm = F(TV), F(2 * TV), F(-TV), F(-2 * TV)
-                    fw = (-3 * y0[v] + 4 * f_p - f_pp) / (2 * TV)
-                    bw = (3 * y0[v] - 4 * f_m + f_mm) / (2 * TV)
-                    rows.append([[float(a), float(b)] for a, b in zip(fw, bw)])
+                    fw, bw, ef, eb = one_sided(F, TV / 2, y0[v])
+                    rows.append([[float(a), float(b), float(c), float(d)]
+                                 for a, b, c, d in zip(fw, bw, ef, eb)])
             fdv.append(rows)        # [vec][cp][interp][fwd,bwd]
         res['fdv'] = fdv
         if lin:
@@ -471,27 +563,30 @@ class C16(Property):
             return dict(ctx, what='error', err=impl['err'], msg=impl.get('msg'), tb=impl.get('tb'))
         scale, dscale = self.scales(case)
         tol = dtol(method)
-        if kind in ('interp_dx', 'mmsc'):
+        if kind == 'gradient':
+            ctx['order'] = case['order']
+            if not impl['shape_ok']:
+                return dict(ctx, what='gradient_shape')
+        if kind in ('interp_dx', 'mmsc', 'gradient'):
             # evaluation 0 and every later evaluation on the same object
             evals = [(case['pts'], impl)] + list(zip(case.get('seq', []), impl.get('seq', [])))
             V = [float(unrat(v)) for v in case['values']]
             for step, (pts, r_) in enumerate(evals):
                 sctx = dict(ctx, evaluation=step, later_evaluation=step > 0)
                 for k, (drow, frow) in enumerate(zip(r_['dx'], r_['fd'])):
-                    for j, (d, (fw, bw)) in enumerate(zip(drow, frow)):
+                    for j, (d, est) in enumerate(zip(drow, frow)):
                         d = float(unrat(d))
-                        if not (close(d, fw, tol, dscale) or close(d, bw, tol, dscale)):
+                        if not fd_ok(d, est, tol, dscale):
                             return dict(sctx, what='d_dx_vs_difference', point=pts[k], dim=j, got=d,
-                                        forward=fw, backward=bw)
+                                        forward=est[0], backward=est[1], error_bars=list(est[2:]))
                 if kind == 'mmsc' and case['train_grad']:
                     for k, row in enumerate(r_['dv']):
                         r = [float(unrat(x)) for x in row]
                         for e, a in enumerate(r):
-                            fw, bw = r_['fdv'][e][k]
-                            s = max(1.0, abs(a))
-                            if not (close(a, fw, 1e-6, s) or close(a, bw, 1e-6, s)):
+                            est = r_['fdv'][e][k]
+                            if not fd_ok(a, est, 1e-6, max(1.0, abs(a))):
                                 return dict(sctx, what='d_dvalues_vs_difference', point=pts[k], entry=e,
-                                            got=a, forward=fw, backward=bw)
+                                            got=a, forward=est[0], backward=est[1])
                         tot = sum(a * v for a, v in zip(r, V))
                         if not close(tot, float(unrat(r_['v'][k])), 1e-8, 10 * scale):
                             return dict(sctx, what='value_not_sum_of_weights', point=pts[k], got=tot,
@@ -521,11 +616,10 @@ class C16(Property):
                 for i, row in enumerate(rows):
                     r = [float(unrat(x)) for x in row]
                     for kcp, a in enumerate(r):
-                        fw, bw = impl['fdv'][v][kcp][i]
-                        s = max(1.0, abs(a))
-                        if not (close(a, fw, 1e-6, s) or close(a, bw, 1e-6, s)):
+                        est = impl['fdv'][v][kcp][i]
+                        if not fd_ok(a, est, 1e-6, max(1.0, abs(a))):
                             return dict(ctx, what='d_dvalues_vs_difference', entry=kcp, interp=i, got=a,
-                                        forward=fw, backward=bw)
+                                        forward=est[0], backward=est[1])
                     tot = sum(a * y for a, y in zip(r, Vv))
                     if not close(tot, float(unrat(impl['y'][v][i])), 1e-8, 10 * scale):
                         return dict(ctx, what='value_not_sum_of_weights', got=tot,
@@ -538,10 +632,13 @@ class C16(Property):
 
     def signature(self, case, impl, failure):
         return {k: failure[k] for k in ('what', 'kind', 'method', 'err', 'ndim', 'train_grad',
-                                            'vec_eq_ninterp', 'later_evaluation')
+                                            'vec_eq_ninterp', 'later_evaluation', 'order')
                 if k in failure}
 
     def bucket(self, case, impl):
+        if case['kind'] == 'gradient':
+            return ['kind=gradient', 'method=' + case['method'], 'ndim=%d' % len(case['grids']),
+                    'order=' + case['order'], 'impl_error' if 'err' in impl else 'impl_ok']
         out = ['kind=' + case['kind'], 'method=' + case['method'], 'ndim=%d' % len(case['grids']),
                'points=%d' % len(case['pts']), 'impl_error' if 'err' in impl else 'impl_ok']
         if case['kind'] == 'mmsc':
@@ -552,7 +649,7 @@ class C16(Property):
 
     # -- model -----------------------------------------------------------------------------------
     def model_requests(self, case, impl):
-        if 'err' in impl or case['method'] == 'bsplines':
+        if 'err' in impl or case['method'] == 'bsplines' or case['method'] in SCIPY:
             return []
         base = BASE[case['method']]
         kind = case['kind']
@@ -577,7 +674,7 @@ class C16(Property):
 
         def f(x):
             return float(unrat(x))
-        if kind in ('interp_dx', 'mmsc'):
+        if kind in ('interp_dx', 'mmsc', 'gradient'):
             evals = [(case['pts'], impl)] + list(zip(case.get('seq', []), impl.get('seq', [])))
             it = iter(answers)
             for step, (pts, r_) in enumerate(evals):
